@@ -900,7 +900,7 @@ def _first_of_generator(stmts, repo, f, new_funcs, resolve_helper):
     return out
 
 
-def _is_local_procedure(fnode, hnode):
+def _is_local_procedure(fnode, hnode, allow_nested=False):
     """hnode is a `def` sitting directly in fnode's body, bound once (the name is not assigned anywhere else), with constant defaults
     and no decorators: calling it runs its body in fnode's own scope of free variables, so a call can be spliced like a helper's"""
     if not any(hnode is st for st in fnode.body) or hnode.decorator_list:
@@ -916,8 +916,10 @@ def _is_local_procedure(fnode, hnode):
             binds += 1
     if binds != 1:
         return False
+    if any(isinstance(x, (ast.Global, ast.Nonlocal)) for x in ast.walk(hnode)):
+        return False
     # names assigned in the closure are its own locals (no nonlocal: checked by splicable); nested closures inside it are left alone
-    return not any(isinstance(x, (ast.FunctionDef, ast.Lambda, ast.ClassDef)) for st in hnode.body for x in ast.walk(st))
+    return allow_nested or not any(isinstance(x, (ast.FunctionDef, ast.Lambda, ast.ClassDef)) for st in hnode.body for x in ast.walk(st))
 
 
 def _conditional_values_to_statements(stmts, repo, f, new_funcs, resolve_helper):
@@ -976,7 +978,8 @@ def inline_new_helpers(repo, new_funcs, resolve_helper, bind_args, max_rounds=2)
                             cs_.body = rewrite(cs_.body)
                     if isinstance(st, ast.For) and isinstance(st.iter, ast.Call):
                         h, skip = resolve_helper(repo, f, st.iter)
-                        if h is not None and h.qname in new_funcs and h.node is not f.node and _is_generator(h.node) and not h.node.decorator_list:
+                        if h is not None and (h.qname in new_funcs or _is_local_procedure(f.node, h.node, allow_nested=True)) and h.node is not f.node and _is_generator(h.node) \
+                                and not h.node.decorator_list:
                             b = bind_args(h, skip, st.iter)
                             if b is not None:
                                 counter[0] += 1
@@ -1000,7 +1003,7 @@ def inline_new_helpers(repo, new_funcs, resolve_helper, bind_args, max_rounds=2)
                         for c_ in _hoistable_calls(st.value, allow_top=True):
                             if isinstance(c_.func, ast.Name) and c_.func.id in ("list", "tuple") and len(c_.args) == 1 and not c_.keywords and isinstance(c_.args[0], ast.Call):
                                 hg, _sk = resolve_helper(repo, f, c_.args[0])
-                                if hg is not None and hg.qname in new_funcs and hg.node is not f.node and _is_generator(hg.node):
+                                if hg is not None and (hg.qname in new_funcs or _is_local_procedure(f.node, hg.node, allow_nested=True)) and hg.node is not f.node and _is_generator(hg.node):
                                     counter[0] += 1
                                     tmp = f"collected__g{counter[0]}"
                                     el = f"item__g{counter[0]}"
